@@ -38,7 +38,39 @@ def main(n, seed):
                 out[tuple(os.path.relpath(os.path.join(r, f), root).split(os.sep))] = open(os.path.join(r, f), "rb").read()
         return out
 
+    def unavailable_dir(case):
+        """a target directory object whose listing is NOT in storage: it has to be reported through the error callback -- whether
+        the path is new or already a directory in the workspace -- and nothing of the workspace may be lost (delete off)"""
+        with tempfile.TemporaryDirectory(dir="/var/tmp") as tmp:
+            odb = HashFileDB(fs, os.path.join(tmp, "odb"))
+            ws = os.path.join(tmp, "ws"); os.makedirs(ws)
+            existing = case % 2 == 0
+            if existing:
+                os.makedirs(os.path.join(ws, "data")); open(os.path.join(ws, "data", "stale.txt"), "wb").write(b"stale")
+            open(os.path.join(ws, "keep"), "wb").write(b"k")
+            idx = DataIndex()
+            idx[("data",)] = DataIndexEntry(key=("data",), meta=Meta(isdir=True), hash_info=HashInfo("md5", "f" * 32 + ".dir"))  # not in odb
+            h = hashlib.md5(b"k").hexdigest(); odb.add_bytes(h, b"k")
+            idx[("keep",)] = DataIndexEntry(key=("keep",), meta=Meta(), hash_info=HashInfo("md5", h))
+            idx.storage_map.add_cache(ObjectStorage((), odb))
+            errors = []
+            try:
+                d = compare(md5(build(ws, fs)), idx, delete=False)
+                apply(d, ws, fs, onerror=lambda *a: errors.append(a), links=["copy"])
+            except Exception as e:  # noqa: BLE001
+                return f"raised {e!r}"
+            if not any("data" in str(a) for a in errors):
+                return f"unavailable directory object not reported through onerror (directory already in the workspace: {existing})"
+            if existing and not os.path.exists(os.path.join(ws, "data", "stale.txt")):
+                return "delete off, yet a file below the unavailable directory was removed"
+        return None
+
     for case in range(n):
+        if case % 12 == 11:
+            pr = unavailable_dir(case // 12)
+            if pr:
+                fails.append({"prior": "unavailable directory object", "target": {}, "delete": False, "problem": pr})
+            continue
         prior, target = gen_tree(rnd, 5), gen_tree(rnd, 5)
         mode_lazy = rnd.random() < 0.4
         with_md5 = rnd.random() < 0.6
